@@ -490,6 +490,10 @@ def apply_rewrites(src, mask, it, ed, stats, spec_entry):
         if mask[lo + m.start()] != ord('c'): continue
         ed.replace(lo + m.start(), lo + m.end(), 'crate::spec::%s_lit(%s, %s)' % (m.group(2), m.group(1), aslit(m.group(3))))
         stats['R15_str'] = stats.get('R15_str', 0) + 1
+    for m in re.finditer(r'(?<![\w.])([a-z_]\w*)\.(trim_end_matches|trim_start_matches)\(\s*%s\s*\)' % LIT, body):
+        if mask[lo + m.start()] != ord('c'): continue
+        ed.replace(lo + m.start(), lo + m.end(), 'crate::spec::%s_lit(&*%s, %s)' % (m.group(2), m.group(1), aslit(m.group(3))))
+        stats['R15_str'] = stats.get('R15_str', 0) + 1
     NUM = 'i8|i16|i32|i64|i128|isize|u8|u16|u32|u64|u128|usize|f32|f64'
     for m in re.finditer(r'(?<![\w.])([a-z_]\w*)\.to_string\(\)\.parse::<(%s)>\(\)' % NUM, body):
         if mask[lo + m.start()] != ord('c'): continue
